@@ -122,11 +122,13 @@ def damage_part(chk, tier):
                             damages.append((pos, m))
             for (pos, mask) in damages:
                 for mode in modes:
-                    for verify in ((1, 0) if (pos < 0 or k % 4 == 0) else (1,)):
+                    # verify: 1 explicit, 0 explicit (memory safety only), "d" = NULL options / untouched defaults
+                    # (documented default: verification on)
+                    for verify in ((1, 0, "d") if pos < 0 else (1, 0) if k % 4 == 0 else ("d",) if k % 4 == 2 else (1,)):
                         lid = "x%d" % k; k += 1
                         dst = "@DST@"
                         toks = [lid, "J:%s:%s:%d:%s" % (dst, src, max(pos, 0), hexs(mask) if pos >= 0 else "00"),
-                                "O:%s:%s:%d" % (dst, mode, verify)]
+                                "O:%s:%s:%s" % (dst, mode, verify)]
                         for (g, c) in chunks:
                             toks += ["K:%d:%d" % (g, c), "D:%d" % (2 if k % 2 else 1000)]
                         toks.append("Z")
@@ -175,7 +177,7 @@ def damage_part(chk, tier):
                       "defs": [] if f[2] == "-" else [ord(ch) - 48 for ch in f[2]],
                       "vals": wcommon.dec_vals(typ, tlen, f[3]), "fault": fault_of.get(lid, "")}
                 evs.append(ev)
-                if evs[0]["layout"] and pos < 0 and mode == "f" and verify and not ev["error"] \
+                if evs[0]["layout"] and pos < 0 and mode == "f" and verify == 1 and not ev["error"] \
                         and not any(x["g"] == g and x["c"] == c for x in evs[0]["content"]):
                     evs[0]["content"].append({"g": g, "c": c, "defs": ev["defs"], "vals": ev["vals"]})
         verdicts, stats, ress = common.validate_traces("DamageTrace", list(by_file.values()))
